@@ -10,6 +10,16 @@ STANDING_ASSUMPTIONS = [
 ]
 
 PROPERTIES = {
+    'C12': {
+        'units': ['store', 'storelemmas', 'index'],
+        'sample_functions': ['Store::store_event', 'Store::remove_event'],
+        'not_decided': ['observables served by Store::find_events are functions of the committed tables, which are proved unchanged; find_events itself is not under contract'],
+    },
+    'C18': {
+        'units': ['store', 'storelemmas', 'index'],
+        'sample_functions': ['Store::remove_event', 'Store::remove_by_offset', 'Store::store_event'],
+        'not_decided': ['Store::vanish (calls find_events, outside the reach of this technique)'],
+    },
     'C10': {
         'units': ['store', 'storelemmas', 'index', 'keys'],
         'sample_functions': ['Store::handle_deletion_event', 'Store::remove_replaceable', 'Store::remove_by_offset'],
